@@ -11,6 +11,9 @@ import sys
 import time
 
 ROOT = os.path.dirname(os.path.dirname(os.path.abspath(__file__)))
+# /repo by default; a scratch worktree of /repo when evaluating from a scratch copy of /verif whose harness
+# points at that worktree (keeps /repo untouched while other builds use it)
+REPO = os.environ.get("SEEDED_REPO", "/repo")
 SEEDED = os.path.join(ROOT, "seeded")
 
 
@@ -33,16 +36,16 @@ def main():
             ids.append(args[i]); i += 1
     if not ids:
         ids = sorted(d for d in os.listdir(SEEDED) if os.path.isdir(os.path.join(SEEDED, d)))
-    st = sh("git -C /repo status --porcelain --untracked-files=no").stdout.strip()
+    st = sh("git -C %s status --porcelain --untracked-files=no" % REPO).stdout.strip()
     if st:
-        print("refusing: /repo has local modifications:\n" + st)
+        print("refusing: %s has local modifications:\n" % REPO + st)
         return 2
     summary = []
     for sid in ids:
         d = os.path.join(SEEDED, sid)
         meta = json.load(open(os.path.join(d, "meta.json")))
         props = [meta["property"]] + [c for c in extra if c != meta["property"]]
-        ap = sh("git -C /repo apply --whitespace=nowarn " + os.path.join(d, "patch.diff"))
+        ap = sh("git -C %s apply --whitespace=nowarn %s" % (REPO, os.path.join(d, "patch.diff")))
         if ap.returncode != 0:
             print(sid, "patch does not apply:", ap.stdout[-500:])
             summary.append((sid, "patch-failed", []))
@@ -57,9 +60,9 @@ def main():
                           "tail": r.stdout.splitlines()[-6:]}
                 print(sid, p, "exit", r.returncode, "violations", sum(1 for l in viol if l.startswith("VIOLATION")), flush=True)
         finally:
-            sh("git -C /repo checkout -- .")
+            sh("git -C %s checkout -- ." % REPO)
         det = {"id": sid, "tier": tier, "results": res, "detected_by": [p for p, v in res.items() if v["exit"] == 1],
-               "repo_head": sh("git -C /repo rev-parse --short HEAD").stdout.strip(), "when": time.strftime("%Y-%m-%d %H:%M")}
+               "repo": REPO, "repo_head": sh("git -C %s rev-parse --short HEAD" % REPO).stdout.strip(), "when": time.strftime("%Y-%m-%d %H:%M")}
         json.dump(det, open(os.path.join(d, "detection.json"), "w"), indent=1)
         summary.append((sid, "detected" if det["detected_by"] else "MISSED", det["detected_by"]))
     print("\n== summary")
